@@ -212,7 +212,7 @@ class PseudoOperand(Operand):
                 size=self.value.byte_len(),
                 max_size=self.value.byte_len()
             ) if self.value.is_multi_byte() else CodePackage(
-                additional=NumericValue(self.value.int, size_hint=2),
+                additional=NumericValue(-self.value.int if self.value.is_negative() else self.value.int, size_hint=2),
                 size=1,
                 max_size=1
             )
@@ -223,7 +223,7 @@ class PseudoOperand(Operand):
                 size=self.value.byte_len(),
                 max_size=self.value.byte_len()
             ) if self.value.is_multi_word() else CodePackage(
-                additional=NumericValue(self.value.int, size_hint=4),
+                additional=NumericValue(-self.value.int if self.value.is_negative() else self.value.int, size_hint=4),
                 size=2,
                 max_size=2
             )
